@@ -441,34 +441,39 @@ def wprod_targets():
 
 
 def gfmarg_targets():
-    """TimeFixedGFormula.fit: the six assignments to self.marginal_outcome (weights column given or not) x (standardize =
-    population / exposed / unexposed): which aggregate (np.mean / np.average with weights), over which rows (the mask on the
-    OBSERVED exposure self.gf[self.exposure], or none), of which columns.  Rows are (observed exposure, prediction, weight)."""
+    """TimeFixedGFormula.fit and .fit_stochastic (per Monte-Carlo replicate): the six marginalisation branches
+    (weights column given or not) x (standardize = population / exposed / unexposed): which aggregate (np.mean / np.average
+    with weights), over which rows (the mask on the OBSERVED exposure self.gf[self.exposure], or none), of which columns.
+    Rows are (observed exposure, prediction, weight)."""
     TF = os.path.join(REPO, 'zepid/causal/gformula/TimeFixed.py')
-    fn = find_function(ast.parse(open(TF).read()), 'TimeFixedGFormula.fit')
-    tops = [st for st in fn.body if isinstance(st, ast.If) and ast.unparse(st.test) == 'self._weights is None']
-    if len(tops) != 1:
-        raise TranslateError('expected one `if self._weights is None:` in TimeFixedGFormula.fit, found %d' % len(tops))
+    tree = ast.parse(open(TF).read())
 
-    def pick(stmts, std):
-        """the assignment to self.marginal_outcome reached for this standardize value"""
+    def leaf_value(st, kind):
+        if kind == 'fit' and isinstance(st, ast.Assign) and ast.unparse(st.targets[0]) == 'self.marginal_outcome':
+            return st.value
+        if (kind == 'sto' and isinstance(st, ast.Expr) and isinstance(st.value, ast.Call)
+                and ast.unparse(st.value.func) == 'marginals.append' and len(st.value.args) == 1):
+            return st.value.args[0]
+        return None
+
+    def pick(stmts, std, kind):
         for st in stmts:
             if isinstance(st, ast.Assign) and ast.unparse(st.targets[0]) == 'g' and ast.unparse(st.value) == 'g.dropna()':
                 continue
             if isinstance(st, ast.If):
                 t = ast.unparse(st.test)
                 if t == "self.standardize == 'population'":
-                    return pick(st.body if std == 'population' else st.orelse, std)
+                    return pick(st.body if std == 'population' else st.orelse, std, kind)
                 if t == "self.standardize == 'exposed'":
-                    return pick(st.body if std == 'exposed' else st.orelse, std)
-                raise TranslateError('test `%s` in the marginalisation block of TimeFixedGFormula.fit' % t)
-            if isinstance(st, ast.Assign) and ast.unparse(st.targets[0]) == 'self.marginal_outcome':
-                return st.value
-            raise TranslateError('statement `%s` in the marginalisation block' % ast.unparse(st)[:60])
-        raise TranslateError('no assignment to self.marginal_outcome for standardize=%s' % std)
+                    return pick(st.body if std == 'exposed' else st.orelse, std, kind)
+                raise TranslateError('test `%s` in a marginalisation block of TimeFixedGFormula' % t)
+            v = leaf_value(st, kind)
+            if v is not None:
+                return v
+            raise TranslateError('statement `%s` in a marginalisation block' % ast.unparse(st)[:60])
+        raise TranslateError('no marginal value for standardize=%s' % std)
 
     def column(e):
-        """-> (mask 'all'|'1'|'0', column 'pred'|'w')"""
         u = ast.unparse(e)
         for col, name in (('self.outcome', 'pred'), ('self._weights', 'w')):
             if u == 'g[%s]' % col:
@@ -476,31 +481,41 @@ def gfmarg_targets():
             for lvl in ('1', '0'):
                 if u == 'g.loc[self.gf[self.exposure] == %s, %s]' % (lvl, col):
                     return lvl, name
-        raise TranslateError('column expression %s in the marginalisation block' % u)
+        raise TranslateError('column expression %s in a marginalisation block' % u)
     out = []
-    for weighted, body in ((False, tops[0].body), (True, tops[0].orelse)):
-        for std in ('population', 'exposed', 'unexposed'):
-            v = pick(body, std)
-            if not (isinstance(v, ast.Call) and isinstance(v.func, ast.Attribute) and ast.unparse(v.func.value) == 'np'):
-                raise TranslateError('marginal_outcome is %s' % ast.unparse(v))
-            if v.func.attr == 'mean' and len(v.args) == 1 and not v.keywords:
-                mask, col = column(v.args[0])
-                if col != 'pred':
-                    raise TranslateError('np.mean of %s' % ast.unparse(v.args[0]))
-                agg = 'Qsum (fun r => snd (fst r)) sel / Qlen sel'
-            elif v.func.attr == 'average' and len(v.args) == 1 and [k.arg for k in v.keywords] == ['weights']:
-                mask, col = column(v.args[0])
-                mask2, col2 = column(v.keywords[0].value)
-                if col != 'pred' or col2 != 'w' or mask != mask2:
-                    raise TranslateError('np.average arguments %s' % ast.unparse(v))
-                agg = 'Qsum (fun r => snd r * snd (fst r)) sel / Qsum (fun r => snd r) sel'
-            else:
-                raise TranslateError('aggregate %s' % ast.unparse(v))
-            sel = 'rows' if mask == 'all' else 'filter (fun r => %s) rows' % ('fst (fst r)' if mask == '1' else 'negb (fst (fst r))')
-            name = 'gf_fit_%s_%s' % (std, 'w' if weighted else 'now')
-            txt = ('(* rows: (observed exposure, prediction under the plan, weight) of the rows left after dropna() *)\n'
-                   'Definition %s_Q (rows : list (bool * Q * Q)) : Q :=\n  let sel := %s in\n  %s.' % (name, sel, agg))
-            out.append(RawTarget(name, txt, ['rows'], ['marginal_outcome']))
+    for kind, qual, prefix in (('fit', 'TimeFixedGFormula.fit', 'gf_fit'), ('sto', 'TimeFixedGFormula.fit_stochastic', 'gf_sto')):
+        fn = find_function(tree, qual)
+        tops = [st for st in ast.walk(fn) if isinstance(st, ast.If) and ast.unparse(st.test) == 'self._weights is None'
+                and any(isinstance(b, ast.If) and 'self.standardize' in ast.unparse(b.test) for b in st.body)]
+        if len(tops) != 1:
+            raise TranslateError('expected one marginalisation `if self._weights is None:` in %s, found %d' % (qual, len(tops)))
+        if kind == 'sto':
+            last = fn.body[-1]
+            if not (isinstance(last, ast.Assign) and ast.unparse(last) == 'self.marginal_outcome = np.mean(marginals)'):
+                raise TranslateError('fit_stochastic no longer ends with self.marginal_outcome = np.mean(marginals)')
+        for weighted, body in ((False, tops[0].body), (True, tops[0].orelse)):
+            for std in ('population', 'exposed', 'unexposed'):
+                v = pick(body, std, kind)
+                if not (isinstance(v, ast.Call) and isinstance(v.func, ast.Attribute) and ast.unparse(v.func.value) == 'np'):
+                    raise TranslateError('marginal value is %s' % ast.unparse(v))
+                if v.func.attr == 'mean' and len(v.args) == 1 and not v.keywords:
+                    mask, col = column(v.args[0])
+                    if col != 'pred':
+                        raise TranslateError('np.mean of %s' % ast.unparse(v.args[0]))
+                    agg = 'Qsum (fun r => snd (fst r)) sel / Qlen sel'
+                elif v.func.attr == 'average' and len(v.args) == 1 and [k.arg for k in v.keywords] == ['weights']:
+                    mask, col = column(v.args[0])
+                    mask2, col2 = column(v.keywords[0].value)
+                    if col != 'pred' or col2 != 'w' or mask != mask2:
+                        raise TranslateError('np.average arguments %s' % ast.unparse(v))
+                    agg = 'Qsum (fun r => snd r * snd (fst r)) sel / Qsum (fun r => snd r) sel'
+                else:
+                    raise TranslateError('aggregate %s' % ast.unparse(v))
+                sel = 'rows' if mask == 'all' else 'filter (fun r => %s) rows' % ('fst (fst r)' if mask == '1' else 'negb (fst (fst r))')
+                name = '%s_%s_%s' % (prefix, std, 'w' if weighted else 'now')
+                txt = ('(* rows: (observed exposure, prediction under the plan / the replicate\'s assignment, weight) *)\n'
+                       'Definition %s_Q (rows : list (bool * Q * Q)) : Q :=\n  let sel := %s in\n  %s.' % (name, sel, agg))
+                out.append(RawTarget(name, txt, ['rows'], ['marginal']))
     return out
 
 
